@@ -254,4 +254,86 @@ theorem stress_mirror (S : Fin N → ℝ) :
     stressEast 0 (mirE S) = stressEast 0 S ∧ stressNorth 0 (mirE S) = -stressNorth 0 S :=
   ⟨Acos_mir 1 S, Bsin_mir 1 S⟩
 
+/-- a circular convolution with an even kernel commutes with the mirror image -/
+theorem conv_mirror (g : Fin N → ℝ) (hg : ∀ d, g (-d) = g d) (x : Fin N → ℝ) :
+    conv g (mirE x) = mirE (conv g x) := by
+  funext j
+  simp only [conv, mirE]
+  refine Fintype.sum_equiv (Equiv.neg (Fin N)) _ _ (fun j' => ?_)
+  simp only [Equiv.neg_apply]
+  rw [← hg (j' - j)]
+  congr 2
+  abel
+
+/-- the wrap of `-x` has the same magnitude as the wrap of `x` (`-π` is its own mirror image) -/
+theorem abs_wrapPi_neg (x : ℝ) : |wrapPi rfloor (-x)| = |wrapPi rfloor x| := by
+  have hpi := Real.pi_pos
+  rw [wrapPi_eq, wrapPi_eq]
+  set n := ⌊(x + π) / (2 * π)⌋ with hn
+  have h2pi : (0 : ℝ) < 2 * π := by positivity
+  have hfl := Int.floor_le ((x + π) / (2 * π))
+  have hlt := Int.lt_floor_add_one ((x + π) / (2 * π))
+  rw [← hn] at hfl hlt
+  rw [le_div_iff₀ h2pi] at hfl
+  rw [div_lt_iff₀ h2pi] at hlt
+  -- w := x - 2π n ∈ [-π, π)
+  by_cases hw : x - n * (2 * π) = -π
+  · -- the boundary: both wraps are -π
+    have : ⌊(-x + π) / (2 * π)⌋ = -n + 1 := by
+      rw [Int.floor_eq_iff]
+      push_cast
+      constructor
+      · rw [le_div_iff₀ h2pi]; linarith
+      · rw [div_lt_iff₀ h2pi]; linarith
+    rw [this]
+    push_cast
+    rw [hw, show -x - (-(n : ℝ) + 1) * (2 * π) = -(x - n * (2 * π)) - 2 * π by ring, hw]
+    simp only [neg_neg, abs_neg]
+    rw [show π - 2 * π = -π by ring, abs_neg]
+  · have hgt : -π < x - n * (2 * π) := by
+      rcases lt_or_eq_of_le (show -π ≤ x - n * (2 * π) by linarith) with h | h
+      · exact h
+      · exact absurd h.symm hw
+    have : ⌊(-x + π) / (2 * π)⌋ = -n := by
+      rw [Int.floor_eq_iff]
+      push_cast
+      constructor
+      · rw [le_div_iff₀ h2pi]; linarith
+      · rw [div_lt_iff₀ h2pi]; linarith
+    rw [this]
+    push_cast
+    rw [show -x - -(n : ℝ) * (2 * π) = -(x - n * (2 * π)) by ring, abs_neg]
+
+theorem absv_eq_abs (a : ℝ) : Solv.absv a = |a| := by
+  simp only [Solv.absv]
+  split
+  · rename_i h; rw [abs_of_neg h]
+  · rename_i h; rw [abs_of_nonneg (not_lt.1 h)]
+
+/-- the saturation kernel is even in the index difference -/
+theorem satKernel_even (bp : BrkP ℝ) (d : Fin N) : satKernel bp (-d) = satKernel bp d := by
+  obtain ⟨q, hq⟩ := theta_neg (N := N) d
+  have hw : wrapPi rfloor (deg2rad (theta (N := N) 0 (-d))) = wrapPi rfloor (-(deg2rad (theta (N := N) 0 d))) := by
+    rw [hq, deg2rad_eq, deg2rad_eq]
+    have : (-(theta (N := N) 0 d) + ↑q * 360) * π / 180 = -(theta (N := N) 0 d * π / 180) + ((q : ℤ) : ℝ) * (2 * π) := by
+      push_cast; ring
+    rw [this, wrapPi_add_int]
+  simp only [satKernel, hw, absv_eq_abs, abs_wrapPi_neg, cos_wrapPi, Real.cos_neg]
+
+/-- the band-integrated saturation of the mirrored spectrum is the mirrored saturation (grid from 0) -/
+theorem bandRow_mirror (bp : BrkP ℝ) (sat : Fin N → ℝ) :
+    bandRow bp 0 (mirE sat) = mirE (bandRow bp 0 sat) := by
+  rw [bandRow_eq_conv, bandRow_eq_conv, conv_mirror _ (satKernel_even bp)]
+
+theorem strengthKernel_even (c c' w : ℝ) (d : Fin N) : strengthKernel c c' w (-d) = strengthKernel c c' w d := by
+  obtain ⟨q, hq⟩ := theta_neg (N := N) d
+  simp only [strengthKernel]
+  rw [hq, cosd_add_360, cosd_neg]
+
+/-- … and so is the cumulative-breaking strength -/
+theorem strengthRow_mirror (c c' w : ℝ) (X : Fin N → ℝ) :
+    strengthRow 0 c c' w (mirE X) = mirE (strengthRow 0 c c' w X) := by
+  rw [strengthRow_eq_conv, strengthRow_eq_conv, conv_mirror _ (strengthKernel_even c c' w)]
+
+
 end Osu.Rot
